@@ -147,8 +147,14 @@ def check_case(case):
         "towers": [{"name": "A", "lat": lat, "lon": lon, "z_m": 3.0}, {"name": "O", "lat": rl, "lon": ro, "z_m": 3.0}],
         "met": {"ustar": 0.3},
     })
-    if (cfg.towers[0].x, cfg.towers[0].y) != (x, y) or (cfg.towers[1].x, cfg.towers[1].y) != (0.0, 0.0):
-        out.bad(f"TowerConfig local coordinates {(cfg.towers[0].x, cfg.towers[0].y)} differ from latlon_to_xy {(x, y)}")
+    # (float(): NumPy compares a float32 scalar with a Python float in single precision, which would hide a narrowed value)
+    tx, ty = cfg.towers[0].x, cfg.towers[0].y
+    if (float(tx), float(ty)) != (x, y) or (float(cfg.towers[1].x), float(cfg.towers[1].y)) != (0.0, 0.0):
+        out.bad(f"TowerConfig local coordinates {(tx, ty)!r} differ from latlon_to_xy {(x, y)}")
+    # ... and taking the tower's stored coordinates back gives its configured position
+    la_t, lo_t = xy_to_latlon(tx, ty, rl, ro)
+    if not (abs(float(la_t) - lat) <= 1e-9 and abs(float(lo_t) - lon) <= 1e-9):
+        out.bad(f"tower configured at {(lat, lon)} -> stored local coordinates {(tx, ty)!r} -> {(float(la_t), float(lo_t))}")
 
     out.nontrivial = d >= 10.0 and (b % 90.0) != 0.0
     return out
